@@ -238,8 +238,9 @@ func buildOne(r *rand.Rand, name string, docs []sq.Doc) (*build, error) {
 		b.cmp, b.merged = false, true
 		b.none = name == "merged-none"
 		return b, reader(w)
-	case "with-deletes":
-		w, err := open(cfg(tmpdir(), 1, "none", false))
+	case "with-deletes", "backup-deletes", "reopen-deletes":
+		wpath := tmpdir()
+		w, err := open(cfg(wpath, 1, "none", false))
 		if err != nil {
 			return b, err
 		}
@@ -269,6 +270,33 @@ func buildOne(r *rand.Rand, name string, docs []sq.Doc) (*build, error) {
 			return b, err
 		}
 		b.cmp = false
+		switch name {
+		case "backup-deletes":
+			// the backup must carry the pending deletions (they live in the snapshot, not in the segment files)
+			r0, err := w.Reader()
+			if err != nil {
+				return b, err
+			}
+			defer r0.Close()
+			dst := tmpdir()
+			if err = r0.Backup(dst, nil); err != nil {
+				return b, err
+			}
+			rd, err := bluge.OpenReader(cfg(dst, 1, "none", false))
+			if err == nil {
+				b.readers = append(b.readers, rd)
+			}
+			return b, err
+		case "reopen-deletes":
+			if err = w.Close(); err != nil {
+				return b, err
+			}
+			rd, err := bluge.OpenReader(cfg(wpath, 1, "none", false))
+			if err == nil {
+				b.readers = append(b.readers, rd)
+			}
+			return b, err
+		}
 		return b, reader(w)
 	case "multi-2", "multi-3":
 		k, _ := strconv.Atoi(name[6:])
@@ -418,7 +446,7 @@ func main() {
 		ncorp, nqs = 300, 16
 	}
 	recipes := []string{"all-at-once", "one-per-batch", "partition-mem", "v2", "noopt", "reopen", "backup", "score-none",
-		"offline-1", "offline-3", "offline-100", "merged", "merged-none", "with-deletes", "multi-2", "multi-3"}
+		"offline-1", "offline-3", "offline-100", "merged", "merged-none", "with-deletes", "backup-deletes", "reopen-deletes", "multi-2", "multi-3"}
 	for ci := 0; ci < ncorp; ci++ {
 		nd := []int{0, 1, 3, 7, 12, 15, 25, 40}[r.Intn(8)]
 		if ci == 0 {
